@@ -694,7 +694,8 @@ def compare(run, kind, cases, label):
     return bad
 
 
-def corr(run, quick):
+def corr_dispatch(run, quick):
+    """__array_ufunc__ / method forms / __new__ : model vs real class.  Returns the number of disagreements."""
     import spherical  # noqa: F401
     rng = run.rng
     n_uf, n_me, n_new = (2600, 700, 300) if quick else (12000, 3000, 1000)
@@ -706,6 +707,19 @@ def corr(run, quick):
     for _ in range(n_new):
         cases.append(gen_new(rng))
     bad = compare(run, KIND, cases, KIND)
+    dist = {}
+    for _, impl, _ in cases:
+        k = outkind(impl)
+        dist[k] = dist.get(k, 0) + 1
+    run.notes["grid_outcome_distribution"] = dict(sorted(dist.items(), key=lambda t: -t[1]))
+    run.notes.setdefault("grid_corr", {}).update({"dispatch_cases": len(cases), "dispatch_disagreements": bad})
+    return bad
+
+
+def corr_copy(run, quick):
+    """copy / pickle routes: model hooks vs real class.  Returns the number of disagreements."""
+    import spherical  # noqa: F401
+    rng = run.rng
     ccases = []
     for s in ([-2, 0, 1, 3] if quick else range(-3, 4)):
         for keys in ((), ("note",), ("note", "k2")):
@@ -716,10 +730,10 @@ def corr(run, quick):
                     except Exception as e:  # noqa: BLE001  (a route that raises is a disagreement, not a crash)
                         ccases.append((f"grid copy {rname} {s} {ex(keys)}", f"raised {type(e).__name__}: {str(e)[:120]}", rname.split(":")[0]))
     badc = compare(run, KIND_COPY, ccases, KIND_COPY)
-    dist = {}
-    for _, impl, _ in cases:
-        k = outkind(impl)
-        dist[k] = dist.get(k, 0) + 1
-    run.notes["grid_outcome_distribution"] = dict(sorted(dist.items(), key=lambda t: -t[1]))
-    run.notes["grid_corr"] = {"dispatch_cases": len(cases), "dispatch_disagreements": bad, "copy_cases": len(ccases), "copy_disagreements": badc}
-    return bad + badc
+    run.notes.setdefault("grid_corr", {}).update({"copy_cases": len(ccases), "copy_disagreements": badc})
+    return badc
+
+
+def corr(run, quick):
+    """both parts (C16 needs `corr_dispatch`, C18 needs `corr_copy`)"""
+    return corr_dispatch(run, quick) + corr_copy(run, quick)
